@@ -9,6 +9,7 @@ cast votes in a ranked election. [#meekm]_
 """
 
 from decimal import Decimal
+from fractions import Fraction
 from numbers import Number
 from typing import List, Dict, Tuple, Set, Iterable, Optional
 
@@ -135,6 +136,9 @@ def _form_candidate_objects(cands: List[str],
 def _deindex_ballots(ballots: Dict[Tuple[int, ...], Number],
                      cands: List[Candidate]
                      ) -> Dict[Tuple[Candidate, ...], Number]:
+    for ballot in ballots:
+        if not all(1 <= i <= len(cands) for i in ballot):
+            raise BLTParseError(f'candidate number out of range: {ballot!r}')
     return {
         tuple(cands[i-1] for i in ballot): n_votes
         for ballot, n_votes in ballots.items()
@@ -180,6 +184,12 @@ def _parse_body(blt_lines: Iterable[str],
                 raise ValueError(f'ballot weight <1: {line!r}')
             if ballot not in ballots:
                 ballots[ballot] = 0
+            if isinstance(weight, Fraction) != isinstance(
+                ballots[ballot], Fraction
+            ):
+                # Decimal and Fraction do not add; Fraction holds both exactly.
+                weight = Fraction(weight)
+                ballots[ballot] = Fraction(ballots[ballot])
             ballots[ballot] += weight
             ballots_encountered = True
     raise BLTParseError('incomplete BLT file:'
@@ -253,12 +263,18 @@ def _parse_numline(blt_line: str,
     # Split the line by spaces to obtain numbers.
     nums = []
     for i, numstr in enumerate(blt_line.split()):
-        if numstr.isdigit():
-            nums.append(int(numstr))
-        elif i == 0 and allow_first_decimal:
-            nums.append(Decimal(numstr))
-        else:
+        try:
+            if numstr.isdigit():
+                num = int(numstr)
+            elif i == 0 and allow_first_decimal:
+                num = Fraction(numstr) if '/' in numstr else Decimal(numstr)
+            else:
+                raise ValueError('integer expected')
+            if num != num:
+                raise ValueError('not a number')
+        except (ValueError, ArithmeticError) as err:
             raise BLTParseError(f'invalid BLT numberline item {i}: {numstr!r}'
                                 f'(first decimal item'
-                                f'allowed: {allow_first_decimal})')
+                                f'allowed: {allow_first_decimal})') from err
+        nums.append(num)
     return nums
